@@ -74,6 +74,10 @@ def build(rng, cls):
             continue
         if rng.random() < 0.7:
             kwargs[a] = random_value(rng, a, getattr(s, a))
+    if cls == "HvsrTraditionalProcessingSettings" and rng.random() < 0.7:
+        # for the plain traditional settings the way of combining the horizontals is a genuine option (the other classes carry it as a fixed discriminator)
+        kwargs["method_to_combine_horizontals"] = str(rng.choice(["squared_average", "arithmetic_mean", "total_horizontal_energy", "maximum_horizontal_value", "geometric_mean",
+                                                                  "vector_summation", "quadratic_mean"]))
     s = getattr(hvsrpy.settings, cls)(**copy.deepcopy(kwargs))
     # some attributes are changed afterwards by assignment / in place
     for a in list(s.attrs):
@@ -136,6 +140,18 @@ def roundtrip_clause(cl, rng, n, replay):
                 if bad:
                     cl.fail(f"hvsrpy.settings.Settings.{how}", f"{cls}: attribute(s) {bad} not restored: saved {[want[a] for a in bad][:2]} loaded {[got.get(a) for a in bad][:2]}",
                             signature="settings:roundtrip:" + how.split("_")[0])
+                    return
+            # two files of one class read in one process: the object read first is an object of its own (it still holds the first file's values afterwards)
+            if j % 3 == 0:
+                s2 = build(rng, cls)
+                fn2 = os.path.join(d, f"s{j}_second.json")
+                s2.save(fn2)
+                other = hvsrpy.read_settings_object_from_file(fn2)
+                got = {a: content(getattr(via, a)) for a in via.attrs}
+                bad = [a for a in want if a not in got or got[a] != want[a]]
+                if other is via or bad:
+                    cl.fail("hvsrpy.object_io.read_settings_object_from_file", f"{cls}: after a second file of the same class was read, the object read first no longer holds the first "
+                            f"file's values ({bad}; same object: {other is via})", signature="settings:reader-shares-objects")
                     return
             # processing with the reloaded settings gives exactly the same result
             if "Processing" in cls and "Pre" not in cls:
